@@ -113,6 +113,12 @@ theorem stepOp_rinv (o : Oracle) {p : Port} {r : Run} (k : RInv p r) (op : Op) (
     · exact k
     · exact add_rinv k.alive [] k.port ⟨k.inv.textLen, k.inv.se, k.inv.eMax, decInv_fl k.inv.dec _⟩
         ⟨fun hh => nulAfter_fl (k.pinv.nul hh) _, k.pinv.noflag⟩
+  | iflagLine =>
+    dsimp only
+    split
+    · exact k
+    · exact add_rinv k.alive [] k.port ⟨k.inv.textLen, k.inv.se, k.inv.eMax, decInv_fl k.inv.dec _⟩
+        ⟨fun hh => nulAfter_fl (k.pinv.nul hh) _, k.pinv.noflag⟩
   | read => exact doRead_rinv o k
   | chunk b =>
     exact doRead_rinv o (r := { r with s := { r.s with sock := r.s.sock ++ b } })
